@@ -8,16 +8,20 @@ is a deadlock state of the LTS (`deadlock_report_sound`); hence a program withou
 (`no_reachable_deadlock_never_reported`).
 
 What is PROVED here (`_partial`), for all programs, all histories, no bound on actors / operations / objects:
-  * object kind covered: MUTEXES (lock, try_lock, unlock; non-recursive).  Semaphores, barriers, condition variables
-    and mailboxes are executed by the same machine (`ostep`) and tied to the LTS by the correspondence check only
-    (the driver re-checks `execPath o.s path = some o'.s` at every step of every observed history).
+  * object kinds covered: MUTEXES (lock, try_lock, unlock; non-recursive), SEMAPHORES (acquire, release) and BARRIERS
+    (wait; sizes in [1, 2^32)), freely mixed in one program (`SyncOnly` = static actors over these six operations).
+    Condition variables and mailboxes are executed by the same machine (`ostep`) and tied to the LTS by the
+    correspondence check only (the driver re-checks `execPath o.s path = some o'.s` at every step of every observed
+    history).
   * excluding hypothesis `NoRelock`: no actor calls `lock()` on a mutex it already owns.  The full-strength statement
     is FALSE on the current code: `MutexAcquisitionImpl::wait_for` tests `mutex_->get_owner() == issuer_` instead of
     `granted_`, so in a normal run the second `lock()` returns at once, whereas under the checker MUTEX_WAIT is enabled
     only when the acquisition is granted (`MutexAcquisitionObserver::is_enabled`): the state reached by the run is not
     reachable in the LTS (`single_simcall_is_atomic_split_counterexample`, finding `mutex-relock-by-owner-returns`).
+    This hypothesis is the ONLY reason for the `_partial` suffix on programs of the covered kinds.
 -/
 import SgVerif.C14.Main
+import SgVerif.C14.Fixed
 namespace SgVerif.C14
 open SgVerif.McRef
 
@@ -27,8 +31,11 @@ def Reachable (p : Program) (s : State) : Prop := ∃ path, execPath (initState 
 /-- One simcall of a normal run is the atomic composition of the split transitions of the reference LTS:
 executing `Mutex::lock` / `try_lock` / `unlock` in ONE kernel step (Sync model) reaches the LTS state reached by
 executing `MUTEX_ASYNC_LOCK` then — when granted — `MUTEX_WAIT` (resp. `MUTEX_UNLOCK` then the `MUTEX_WAIT` of the
-actor that received the hand-off) back to back, every one of these transitions being enabled; and the state
-correspondence `R` and the invariant are preserved.  (Mutex operations; any other pending simcall contradicts `Inv`.) -/
+actor that received the hand-off) back to back; `Semaphore::acquire` = `SEM_ASYNC_LOCK` [+ `SEM_WAIT` when a token was
+there], `Semaphore::release` = `SEM_UNLOCK` [+ the `SEM_WAIT` of the head waiter]; `Barrier::wait` =
+`BARRIER_ASYNC_LOCK`, and when it completes the group, the `BARRIER_WAIT` of every released waiter in queue order then
+the caller's own; every one of these transitions being enabled; and the state correspondence `R` and the invariant are
+preserved.  (Mutex, semaphore, barrier operations; any other pending simcall contradicts `Inv`.) -/
 theorem single_simcall_is_atomic_split_partial {o o' : OState} {i : Nat} {path : Path} (hR : R o) (hI : Inv o)
     (hok : stepOK o i) (h : ostep o i = some (o', path)) :
     execPath o.s path = some o'.s ∧ R o' ∧ Inv o' :=
@@ -97,5 +104,86 @@ example : (orun (initO abba) [0, 1, 0, 1]).map (fun r => (ostuck r.1, isDeadlock
 the MUTEX_WAIT of actor 1) -/
 example : (orun (initO abba) [0, 0, 1, 0]).map (fun r => (ostuck r.1, r.2))
     = some (false, [(0, 0), (0, 0), (0, 0), (0, 0), (1, 0), (0, 0), (1, 0)]) := by decide
+
+/-- semaphore with one token shared by two actors: `H s=1 ; A A0 R0 ; A A0 R0` -/
+def semProg : Program := { sems := [1], statics := [[.acquire 0, .release 0], [.acquire 0, .release 0]] }
+
+/-- two rounds of a barrier of 2: `H b=2 ; A B0 B0 ; A B0 B0` -/
+def barProg : Program := { bars := [2], statics := [[.barrier 0, .barrier 0], [.barrier 0, .barrier 0]] }
+
+/-- an incomplete barrier group and a semaphore without token: `H b=3 s=0 ; A B0 ; A A0` -/
+def barStuck : Program := { bars := [3], sems := [0], statics := [[.barrier 0], [.acquire 0]] }
+
+example : SyncOnly semProg ∧ SyncOnly barProg ∧ SyncOnly barStuck := by
+  refine ⟨⟨rfl, ?_⟩, ⟨rfl, ?_⟩, ⟨rfl, ?_⟩⟩ <;> decide
+
+/-- semaphores: 0 takes the token (SEM_ASYNC_LOCK + SEM_WAIT), 1 queues (SEM_ASYNC_LOCK), the release of 0 serves 1
+(SEM_UNLOCK + SEM_WAIT of 1), 1 releases: accepted, everybody done -/
+example : (orun (initO semProg) [0, 1, 0, 1]).map (fun r => (ostuck r.1, allDone r.1.s, r.2))
+    = some (false, true, [(0, 0), (0, 0), (1, 0), (0, 0), (1, 0), (1, 0)]) := by decide
+
+/-- barriers, two rounds: 0 arrives, 1 completes the group (BARRIER_ASYNC_LOCK of 1, BARRIER_WAIT of 0, BARRIER_WAIT
+of 1); second round in the other order -/
+example : (orun (initO barProg) [0, 1, 1, 0]).map (fun r => (ostuck r.1, allDone r.1.s, r.2))
+    = some (false, true, [(0, 0), (1, 0), (0, 0), (1, 0), (1, 0), (0, 0), (1, 0), (0, 0)]) := by decide
+
+/-- an incomplete group and an empty semaphore: the run is stuck, the LTS state is a (reachable) deadlock -/
+example : (orun (initO barStuck) [0, 1]).map (fun r => (ostuck r.1, isDeadlock r.1.s, r.2))
+    = some (true, true, [(0, 0), (1, 0)]) := by decide
+
+/-! ### with the proposed fix (`wait_for` tests `granted_`): the full-strength statements, no `NoRelock`
+
+`ostepFixed` / `orunFixed` (C14/Fixed.lean) = the same machine with `Sync.Mutex.lockFixed` (the code after
+props/C14/fix_series/01-mutex-relock.patch) for `Mutex::lock`; it IS the current machine on every step that is not a
+re-lock by the owner (`fixed_machine_agrees_without_relock`).  These theorems speak about the code as it would be after
+the patch — not about the current code, for which the `_partial` ones above and the counterexample hold. -/
+
+/-- fixed code: one simcall = the atomic composition of its split transitions, for EVERY step (a re-lock by the owner
+included: MUTEX_ASYNC_LOCK queues the caller behind itself and its MUTEX_WAIT is not enabled) -/
+theorem single_simcall_is_atomic_split_fixed {o o' : OState} {i : Nat} {path : Path} (hR : R o) (hI : Inv o)
+    (h : ostepFixed o i = some (o', path)) : execPath o.s path = some o'.s ∧ R o' ∧ Inv o' :=
+  ostepFixed_sound hR hI h
+
+/-- fixed code: every accepted history maps to a path of the reference LTS — no hypothesis on the history -/
+theorem engine_run_reachable_fixed (p : Program) (hp : SyncOnly p) (h : List Nat) {o : OState} {path : Path}
+    (hr : orunFixed (initO p) h = some (o, path)) :
+    execPath (initState p) path = some o.s ∧ Reachable p o.s := by
+  obtain ⟨hR, hI⟩ := init_sound p hp
+  obtain ⟨e, _, _⟩ := orunFixed_sound h hR hI hr
+  exact ⟨e, path, e⟩
+
+/-- fixed code: a stuck world is a reachable deadlock state of the LTS -/
+theorem deadlock_report_sound_fixed (p : Program) (hp : SyncOnly p) (h : List Nat) {o : OState} {path : Path}
+    (hr : orunFixed (initO p) h = some (o, path)) (hs : ostuck o = true) :
+    isDeadlock o.s = true ∧ Reachable p o.s := by
+  obtain ⟨hR, hI⟩ := init_sound p hp
+  obtain ⟨e, _, hI'⟩ := orunFixed_sound h hR hI hr
+  exact ⟨stuck_is_deadlock hI' hs, path, e⟩
+
+/-- fixed code: a program with no reachable deadlock never gets stuck -/
+theorem no_reachable_deadlock_never_reported_fixed (p : Program) (hp : SyncOnly p)
+    (hnd : ∀ s, Reachable p s → isDeadlock s = false) (h : List Nat) {o : OState} {path : Path}
+    (hr : orunFixed (initO p) h = some (o, path)) : ostuck o = false := by
+  cases hs : ostuck o with
+  | false => rfl
+  | true =>
+    obtain ⟨hd, hreach⟩ := deadlock_report_sound_fixed p hp h hr hs
+    rw [hnd o.s hreach] at hd
+    cases hd
+
+/-- the fix touches nothing else: on a step that is not a re-lock by the owner both machines do the same -/
+theorem fixed_machine_agrees_without_relock {o : OState} {i : Nat} (hI : Inv o) (hok : stepOK o i) :
+    ostepFixed o i = ostep o i :=
+  ostepFixed_eq_ostep hI hok
+
+/-- the witness of the finding, on the fixed machine: the second `lock()` blocks, the run is stuck, its split path IS a
+path of the LTS and ends in a deadlock state (compare `single_simcall_is_atomic_split_counterexample`) -/
+example : (orunFixed (initO relockProg) [0, 0]).map
+      (fun r => (r.1.s.actors.map (·.obs), [ostuck r.1, isDeadlock r.1.s, (execPath (initState relockProg) r.2).isSome], r.2))
+    = some ([[1]], [true, true, true], [(0, 0), (0, 0)]) := by decide
+
+/-- … and an ordinary history (hand-off) is executed identically by the fixed machine -/
+example : (orunFixed (initO abba) [0, 0, 1, 0]).map (fun r => (ostuck r.1, r.2))
+    = (orun (initO abba) [0, 0, 1, 0]).map (fun r => (ostuck r.1, r.2)) := by decide
 
 end SgVerif.C14
